@@ -1,6 +1,6 @@
 (** C04 - phonon tensor assembly: complete, request-independent, acyclic, isotropic limit. *)
 From Coq Require Import Reals List Bool Arith.
-From Cij Require Import Ops ROps Voigt ShearModel Shear TasksModel Tasks TasksConcrete.
+From Cij Require Import Ops ROps Voigt ShearModel Shear TasksModel Tasks TasksConcrete RelabelBase Relabel.
 Import ListNotations.
 
 (** 1. acyclic: every component a shear task asks for has strictly smaller rank
@@ -69,7 +69,30 @@ Theorem strain_rot_thirds :
   forall (T : nat -> nat -> R) (i : nat), gram T i i = 1 -> strain_rot T (fun _ => / 3) i = / 3.
 Proof. exact strain_rot_thirds_l. Qed.
 
+
+(** 5. relabelling the crystal axes: for each of the six axis permutations pi and each shear key k,
+    the solver applied to the relabelled key [pk pi k] - with the SAME eigenvalues, the SAME
+    rotated-frame values (the relabelled frame T' a i = T (pi^-1 a) i gives the same rotated axial
+    strains for the relabelled strain vector) and the original-frame values looked up through the
+    relabelling - returns the value of the original component *)
+Theorem axis_relabelling :
+  forall pi k lam (c crot : vkey -> R), In pi perms3 -> In k shear_keys ->
+    solve (OF:=ROps) Ris0 (pk pi k) lam (fun key => c (pk (inv3 pi) key)) crot
+    = solve (OF:=ROps) Ris0 k lam c crot.
+Proof. exact solve_relabel_l. Qed.
+
+Theorem axis_relabelling_frames :
+  (forall pi k, In pi perms3 -> In k all_keys -> forall i j, (i < 3)%nat -> (j < 3)%nat ->
+     fict (OF:=ROps) (pk pi k) (ap pi i) (ap pi j) = fict (OF:=ROps) k i j) /\
+  (forall pi (T : nat -> nat -> R) (e : nat -> R) i, In pi perms3 ->
+     strain_rot (fun a j => T (ap (inv3 pi) a) j) (fun a => e (ap (inv3 pi) a)) i = strain_rot T e i) /\
+  (forall pi k, In pi perms3 -> In k shear_keys ->
+     In (pk pi k) shear_keys /\ mult (pk pi k) = mult k /\ pk (inv3 pi) (pk pi k) = k).
+Proof. split; [exact fict_relabel_l | split; [exact strain_rot_relabel_l | exact pk_facts_l]]. Qed.
+
 Print Assumptions deps_rank_decreases.
+Print Assumptions axis_relabelling.
+Print Assumptions axis_relabelling_frames.
 Print Assumptions resolve_closed.
 Print Assumptions resolve_terminates.
 Print Assumptions calculate_correct.
